@@ -49,11 +49,14 @@ CONFIG = dict(
     modules=["SigModel.Props.C10"],
     theorems=["SigModel.ShapesClient." + t for t in [
         "C10_total", "C10_invalid_no_effect", "C10_bystanders", "C10_addressed_message_delivered",
-        "C10_forwarded_raw_valid", "C10_derefs_accounted", "C10_assertions_known", "C10_media_tables_reviewed", "C10_order_facts", "C10_raw_members_checked",
+        "C10_addressed_message_queued",
+        "C10_forwarded_raw_valid", "C10_derefs_accounted", "C10_assertions_known", "C10_media_tables_reviewed",
+        "C10_deferred_tables_reviewed", "C10_payload_derefs_guarded", "C10_order_facts", "C10_raw_members_checked",
         "checkValid_no_crash",
         "C10_total_needs_dialout_guard", "C10_total_needs_fixed_label", "C10_total_needs_nil_guard",
-        "C10_total_needs_validation", "C10_wellformed_needs_raw_check", "C10_total_needs_media_review"]],
-    generated=["ShapesClient", "ShapesMedia"],
+        "C10_total_needs_validation", "C10_wellformed_needs_raw_check", "C10_total_needs_media_review",
+        "C10_total_needs_payload_guard", "C10_total_needs_deferred_review", "C10_total_needs_register_guard"]],
+    generated=["ShapesClient", "ShapesMedia", "ShapesDeferred"],
     harness=dict(pkg="signaling", test="TestVerifC10", timeout=1500),
     stats=c10_stats,
     nontrivial=c10_nontrivial,
@@ -72,7 +75,18 @@ CONFIG = dict(
          "half of the cases publishes itself, then 2-9 media messages (requestoffer / sendoffer / selectStream / offer / answer / "
          "candidate / endOfCandidates to the bystander, itself or nobody) whose payload members (substream, temporal, audio, "
          "video, type, sdp, candidate, bitrate, sid) are in 1/3 of the cases replaced by a value of another JSON type, plus the "
-         "general mutations; every frame is followed by "
+         "general mutations; a third family (40 quick / 150 thorough cases, `world mcu=<0|1> by=<flags>`) is about the "
+         "*recipient's* side: the bystander is in no room (n), has `hide-displaynames` (h) and/or is in the call (c); scripted "
+         "opening (0-2 messages for the connected bystander, `by drop` = its connection goes away without bye and the session waits "
+         "to be resumed, in 1/3 of the cases a battery derived from the tree under test - for every struct type a forwarded payload "
+         "is decoded into and every literal its decoders compare the type with, the document that has only the type and the one with "
+         "every pointer/map/slice member null -, 2-10 messages/controls to the bystander's session, user, room or call whose data is "
+         "built by reflection over those types (every member absent / null / other JSON type / present), `by resume`) and a random "
+         "continuation with further sender states, drops and resumes; while the bystander is detached the harness reports what is "
+         "*queued* for it (read from the session, barrier markers included) and at the resume compares what arrives with what was "
+         "queued; a fourth family (15 / 40 cases, `state remote`) sends hellos of every kind and other frames over a connection "
+         "without session that reaches the hub the way a connection proxied from another cluster node does (a HandlerClient that "
+         "is not a *Client, fed through Hub.OnMessageReceived); every frame is followed by "
          "barriers on the sender's connection and on the backend-room, room, user and session subjects of both clients, "
          "and the hub tables are digested before and after; a case is non-trivial if some frame changed the tables or "
          "reached the bystander; distinct = distinct op lists",
@@ -85,6 +99,9 @@ CONFIG = dict(
         "the stand-in Janus gateway of zz_verif_c10_janus_test.go (mcu=2: answers every request at once, never looks into what the "
         "client sent); the proxy MCU client (mcu_proxy.go) and the media proxy (proxy/) are not run for this property - they are "
         "tied by the reviewed tables of Model/ShapesMedia.lean only (C16/C18 run the proxy itself)",
+        "the stand-in for a connection proxied from another node (vC10Remote in zz_verif_c10_world_test.go: replies are serialised "
+        "where remoteGrpcClient queues them); the harness' reading of ClientSession.pendingClientMessages under the session mutex "
+        "for a detached bystander; the review of the entries of Model/ShapesDeferred.lean (envelope tables: each with its reason)",
         "the harness' barriers and digest (zz_verif_c10_world_test.go) and the go/ast walker of tools/extract/shapesclient.go "
         "(syntactic nil-guard analysis; values that leave a function through struct fields or atomics are not followed) and of "
         "tools/extract/shapesmedia.go (whole-file tables; map lookups are recognised by declaration, everything else is listed); "
@@ -108,16 +125,23 @@ MANIFEST = dict(
          "client message in every function that receives one, the order decode -> validate -> dispatch, the dispatch table, the "
          "label of the message counter and maxMessageSize, and the whole-file tables of single-value type assertions, index "
          "expressions, writes to possibly-nil maps and unguarded dereferences of the media code behind the handlers (Janus client, "
-         "proxy MCU client, media proxy), which must equal the reviewed lists for the model's media branch not to crash. Proved for all connection states and all frames (any size, "
+         "proxy MCU client, media proxy), which must equal the reviewed lists for the model's media branch not to crash; and the "
+         "tables of the recipient's side (where raw bytes of a forwarded payload are decoded again, unguarded dereferences below "
+         "such a payload - each a crash branch of the model's delivery stage - and below the server/async message itself, the "
+         "calls such a message flows into, uses of the nil result of a failed type assertion). The model's delivery stage depends "
+         "on the recipient's state (connected / detached with its queue and the chat-refresh folding / in the call / with "
+         "hide-displaynames). Proved for all connection states and all frames (any size, "
          "text/binary, undecodable or any value of the decoded structure): no crash outcome; invalid frames are answered with "
          "one error, reach nobody and change nothing; the bystander only receives kinds the message content addresses, and an "
          "addressed plain message is delivered. Counter-examples show each guard is needed. Tied to the code by a differential "
          "run of the real Hub with real websocket clients (7 sender states, structure-aware hostile documents and raw bytes, "
          "bystander and table digest, process liveness), including media conversations with wrong-typed payload members through "
-         "the real Janus client on a stand-in gateway.",
+         "the real Janus client on a stand-in gateway, conversations for a recipient whose connection is gone and comes back "
+         "(what is queued, what is flushed on resume), and hellos over a connection that is not a websocket of this hub.",
     note="Trusted: Lean kernel, extractor, harness, the JSON/URL/SDP decoders and websocket/http libraries; backend answers "
-         "are not client input. Three defects found and repaired: dialout response handler nil dereference (6c2ef8c), "
-         "process death on a `type` that is not valid UTF-8 (6585c31), leave vs. transient-update deadlock (001c654, by C14).",
+         "are not client input. Defects found and repaired: dialout response handler nil dereference (6c2ef8c), "
+         "process death on a `type` that is not valid UTF-8 (6585c31), leave vs. transient-update deadlock (001c654, by C14), "
+         "raw members that are not JSON (fe02bf7), nil dereference in processRegister for a connection that is not a *Client.",
     technique="Lean 4 proof (case analysis over the dispatch of a total model with explicit crash outcomes, table lemmas by "
               "decide) + regenerated validation/dereference/assertion tables + differential correspondence against the real hub",
 )
